@@ -161,6 +161,8 @@ class C14(Prop):
             "close_at": st.one_of(st.none(), st.integers(0, 8)),
             # the application calls close() before the opening handshake has finished (at Connected)
             "early_close": gen.weighted([(8, st.just(False)), (1, st.just(True))]),
+            # connect() options passed positionally (documented order) instead of by keyword
+            "connect_positional": gen.weighted([(4, st.just(False)), (1, st.just(True))]),
             "fault": st.one_of(st.none(), st.tuples(st.integers(0, 5), st.sampled_from(["timeout", "oserror", "exc"])).map(list)),
             "seg": gen.segmentation(),
             # an earlier connection in this process (same WebSocket object or another) and how it ended
@@ -227,6 +229,11 @@ class C14(Prop):
                     for seg in ("whole", "bytewise", ["uniform", 7]):
                         for d in (False, True):
                             yield dict(b, early_close=True, auto_pong=auto_pong, seg=seg, deflate=d)
+            for b in battery:
+                # the options passed positionally, in the documented order
+                for auto_pong in (True, False):
+                    for d in (False, True):
+                        yield dict(b, connect_positional=True, auto_pong=auto_pong, deflate=d)
         return [Enumeration("pong_before_reaction_all_single_preemptions", cases, exhaustive=True),
                 Enumeration("close_called_before_the_handshake_finished", early_close, exhaustive=True),
                 Enumeration("pings_around_reads_that_fill_the_receive_buffer", around_full_reads, exhaustive=True),
